@@ -85,7 +85,7 @@ Fixpoint d_node (n : node sigT) : xml :=
   | Node _ name ifs ns => Elem (B "node") (oattr (B "name") name) (map d_iface ifs ++ map d_node ns)
   end.
 
-(* the known-deviation class is C34.Spec.node_none: some Option of the document is None *)
+(* no known-deviation class is left for C34 (the none_option finding was fixed in 34e4ce52) *)
 
 Definition run_x (ws : list bytes) : outp :=
   match read_toks ws [] None with
@@ -99,7 +99,7 @@ Definition run_x (ws : list bytes) : outp :=
           {| o_model := B "OK:" ++ bool_tok same ++ bool_tok same ++ B "T;" ++ toks (d_node d) ++ B ";" ++ toks w ++
                         B ";" ++ hex_of_bytes (print w);
              o_spec := spec;
-             o_class := if node_none sigT d then B "none_option" else dash |}
+             o_class := dash |}
       | Err _ => {| o_model := B "ERR"; o_spec := spec; o_class := dash |}
       | Panic _ => {| o_model := B "PANIC"; o_spec := spec; o_class := dash |}
       end
